@@ -464,7 +464,10 @@ class Session:
         cur["n"] += 1
         if cur["n"] > 60:
             raise _Abort()
-        o = cur["script"].pop(0) if cur["script"] else {"k": "ok", "bad": [], "v": 0}
+        o = dict(cur["script"].pop(0)) if cur["script"] else {"k": "ok", "bad": [], "v": 0}
+        o["bad"] = [p for p in o["bad"] if 1 <= p <= len(recs)] if o["k"] in ("itemT", "itemF") else []
+        if o["k"] in ("itemT", "itemF") and not o["bad"]:
+            o["k"] = "ok"  # no item of this chunk is hit: the request succeeds
         self._finalize("running")
         self.pending = ({"ev": "BulkReq", "s": cur["s"], "o": {"k": o["k"], "bad": sorted(o["bad"]), "v": int(o.get("v", 0))}, "req": {"index": parse_ix(index), "recs": recs}}, cur["op"].lower(), cur["s"])
         k = o["k"]
